@@ -84,7 +84,7 @@ def install():
     for cls in (EpsilonNFA, NondeterministicFiniteAutomaton, DeterministicFiniteAutomaton):
         m(cls, "is_deterministic", PROP, pre, post_det)
     m(FiniteAutomaton, "is_acyclic", PROP, pre, post_acyclic)
-    core.budget_funcs([FiniteAutomaton.get_accepted_words, FiniteAutomaton._get_states_leading_to_final])
+    core.budget_funcs(core.existing(FiniteAutomaton, "get_accepted_words", "_get_states_leading_to_final"))
 
 
 def judge_words(fa, ref, n):
